@@ -17,7 +17,7 @@ def run(ctx):
               label="chains with walls: oracle KKT, roundings separated/ordered/inside")
     ctx.model("MCChain", "NegChain_allpairs.cfg", workers=2, expect_violation="RoundedSepAllPairs",
               label="negative self-test: literal all-pairs reading fails for stub / narrow label / stub (F-01)")
-    recs, meta, errors = lc.gather(ctx, ["random", "dense", "bounds", "float", "relayout"])
+    recs, meta, errors = lc.gather(ctx, ["random", "dense", "bounds", "float", "relayout", "direct"])
     if errors:
         ctx.notes.append("%d layouts raised RecursionError (not part of C01)" % len(errors))
     lc.check(ctx, "LayoutC01.cfg", recs, meta, "C01_")
